@@ -8,6 +8,9 @@
 //	(d) index.IndexKVStore  the caller lindb itself uses (memory + immutable + flushed + merged)
 //	(h) histories           earlier in-memory tries / loaded tries / buckets are kept alive while the same
 //	                        builders are reset and reused; every kept dictionary is re-checked after each step
+//	(r) concurrent readers  one loaded multi-trie bucket (TrieBucket / IndexKVReader / IndexKVStore bucket cache) read by
+//	                        8-16 goroutines at once, then re-checked single-threaded and merged (conc_case.go);
+//	                        some batches also under the race detector
 //
 // Oracle: a sorted slice and a map (oracle.go). Every batch of cases runs in a child process that
 // logs each case before it runs; panics of single operations are recovered per operation.
@@ -29,6 +32,7 @@ import (
 
 	"github.com/lindb/lindb/pkg/trie"
 	"github.com/lindb/lindb/verif/internal/core"
+	"github.com/lindb/lindb/verif/internal/racefilter"
 )
 
 type batch struct {
@@ -47,6 +51,12 @@ func plan(c *core.Ctx) []batch {
 	}
 	add("hist", c.Pick(16, 400), c.Pick(6, 12), 0) // histories that keep earlier dictionaries alive while builders are reused
 	add("directed", c.Pick(2, 8), 1, 0) // hand-made sets around the empty key and 0xFF, random partitions
+	// concurrent readers of one loaded multi-trie bucket (bucket / reader / store layers per batch); the
+	// "concrace" batches run the same cases in the -race build of this engine (VERIF_RACE_BIN)
+	add("conc", c.Pick(12, 90), c.Pick(6, 12), 0)
+	if os.Getenv("VERIF_RACE_BIN") != "" {
+		add("concrace", c.Pick(3, 12), c.Pick(3, 6), 0)
+	}
 	if c.Quick() {
 		add("huge", 0, 0, 0)
 		add("large", 6, 1, 6000)
@@ -82,11 +92,16 @@ func main() {
 		"8-byte binary keys; single-key sets incl. {\"\"} and {FF}; mixtures; the empty key and prefixes/one-byte extensions of present keys mixed in; " +
 		"sets of thousands of keys), distinct values; probes = present keys, their proper prefixes, one-byte extensions (00, FF, alphabet), " +
 		"last byte +-1, inner byte changed, suffixes, random keys, empty key. A case is non-trivial if the key set has >= 2 keys " +
-		"(or contains the empty key / a 0xFF byte); distinct = distinct key set per layer (mem / kv stage / store stage) by FNV hash of the sorted keys")
+		"(or contains the empty key / a 0xFF byte); distinct = distinct key set per layer (mem / kv stage / store stage) by FNV hash of the sorted keys. " +
+		"Concurrent-reader cases: one key set (40-6000 keys) spread over 2-16 tries of one bucket (1-6 flushes x flush block size), loaded once " +
+		"(TrieBucket.Unmarshal / IndexKVReader.GetBucket / IndexKVStore bucket cache), 8-16 goroutines released together, each running a script drawn from the seed: " +
+		"2-4 shuffled passes over present keys, absent proper prefixes, one-byte extensions and neighbours, and every 197th operation a suggest/like/regexp/GetValues/CollectKVs; " +
+		"then a single-threaded re-check and a merge of the bucket. The interleaving itself is the scheduler's; a pass counts as overlapping when other readers completed operations on the same bucket during it")
 	c.Assume("Go's regexp.Regexp.Match, bytes.HasPrefix/HasSuffix/Contains and bytes.Compare are the reference semantics of regexp/like/order")
 	c.Assume("values of one dictionary are distinct (lindb assigns ids from sequences), so value->key collection is a function")
 	c.Assume("dictionaries merged into one bucket have disjoint key sets (lindb looks a key up in memory and in flushed dictionaries before it creates it)")
 	c.Assume("=~ is an unanchored regular-expression search (DESIGN C10, and lindb's own in-memory path uses Regexp.Match)")
+	c.Assume("a loaded dictionary / bucket is immutable and shared between goroutines without a lock (index kv store bucketCache), so concurrent readers must each get the sorted map's answers")
 
 	batches := plan(c)
 	scratch := c.Scratch()
@@ -100,6 +115,8 @@ func main() {
 		lines []line
 	}
 	outs := make([]outcome, len(batches))
+	raceOut := make([]string, len(batches))
+	raceBin := os.Getenv("VERIF_RACE_BIN")
 	timeout := time.Duration(c.Pick(150, 3000)) * time.Second
 	core.Parallel(len(batches), workers, func(i int) {
 		b := batches[i]
@@ -109,13 +126,31 @@ func main() {
 		dir := filepath.Join(scratch, name)
 		_ = os.MkdirAll(dir, 0o755)
 		args := []string{c.Tier, "child", b.Type, strconv.Itoa(b.Index), strconv.Itoa(b.Cases), strconv.Itoa(b.Size), recFile, dir}
-		res := core.RunChild("", args, nil, timeout, outFile)
+		bin, env := "", []string(nil)
+		if b.Type == "concrace" {
+			bin = raceBin
+			env = []string{"GORACE=halt_on_error=0 exitcode=0 log_path=" + filepath.Join(dir, "race")}
+		}
+		res := core.RunChild(bin, args, env, timeout, outFile)
 		outs[i] = outcome{b: b, res: res, lines: readLines(recFile)}
+		if b.Type == "concrace" {
+			raceOut[i] = racefilter.ReadLogs(filepath.Join(dir, "race"), outFile)
+		}
 		_ = os.RemoveAll(dir)
 	})
 
-	for _, o := range outs {
+	for i, o := range outs {
 		name := fmt.Sprintf("%s-%d", o.b.Type, o.b.Index)
+		if o.b.Type == "concrace" {
+			// a data race whose top lindb frame lies in the dictionary code: readers of a loaded (immutable)
+			// dictionary write shared state
+			reports := racefilter.Parse(raceOut[i])
+			c.Count("conc_race_reports_total", len(reports))
+			c.Count("conc_batches_under_race_detector", 1)
+			for _, rep := range racefilter.Attributed(reports, []string{"pkg/trie/", "index/model/", "index/v1/", "index/kv_store.go"}) {
+				c.Violation("C20/data-race/"+strings.Join(rep.TopFrames, "+"), fmt.Sprintf("batch %s: data race between readers of a loaded dictionary, top frames %v", name, rep.TopFrames), rep.Text)
+			}
+		}
 		var last *line
 		done := false
 		for i := range o.lines {
@@ -168,10 +203,22 @@ func main() {
 	for _, k := range []string{"trie_serialise_load_roundtrips", "bucket_merges_of_2plus_dictionaries", "kv_compactions_merging_2plus_files",
 		"store_states_checked", "history_kept_dictionary_rechecks", "history_dictionaries_kept_in-memory-trie",
 		"history_dictionaries_kept_loaded-trie", "history_dictionaries_kept_bucket", "seek_present", "seek_absent", "prefix_enumerations_nonempty", "keysets_with_empty_key", "keysets_with_0xff",
-		"keysets_with_0x00", "keysets_with_key_prefix_of_other", "keysets_with_key_ge_256_bytes", "keysets_ge_1000_keys"} {
+		"keysets_with_0x00", "keysets_with_key_prefix_of_other", "keysets_with_key_ge_256_bytes", "keysets_ge_1000_keys",
+		"conc_shared_buckets_with_2plus_tries_bucket", "conc_shared_buckets_with_2plus_tries_reader", "conc_shared_buckets_with_2plus_tries_store",
+		"conc_shared_buckets_with_4plus_tries", "conc_reader_passes_overlapping_other_readers", "conc_lookups_present",
+		"conc_lookups_absent_proper_prefix", "conc_lookups_absent_one_byte_extension", "conc_getorcreate_of_stored_keys",
+		"conc_enumerations_suggest", "conc_enumerations_like", "conc_enumerations_regexp", "conc_enumerations_values", "conc_enumerations_collect",
+		"conc_single_threaded_rechecks_after_readers", "conc_merges_after_readers"} {
 		if c.Counter(k) == 0 {
 			c.Inconclusive("nothing observed for %s", k)
 		}
+	}
+	// the concurrent phase only means something if the readers really ran at the same time
+	if p, o := c.Counter("conc_reader_passes"), c.Counter("conc_reader_passes_overlapping_other_readers"); p > 0 && o*2 < p {
+		c.Inconclusive("only %d of %d reader passes overlapped with lookups of other readers of the same bucket", o, p)
+	}
+	if raceBin != "" && c.Counter("conc_batches_under_race_detector") == 0 {
+		c.Inconclusive("no batch of concurrent readers ran under the race detector")
 	}
 	c.Finish()
 }
@@ -277,6 +324,12 @@ func childMain() {
 			for j := 0; j < 6; j++ {
 				runStoreCase(r, rnd, fmt.Sprintf("directed-%d-store-%d-%d", idx, i, j), dir, ks, 50)
 			}
+		}
+	case "conc", "concrace":
+		layers := []string{"bucket", "reader", "store"}
+		for i := 0; i < cases; i++ {
+			layer := layers[(i+idx)%3]
+			runConcCase(r, rnd, fmt.Sprintf("%s-%d-%d-%s", typ, idx, i, layer), layer, dir, quick, typ == "concrace")
 		}
 	case "huge":
 		for i := 0; i < cases; i++ {
